@@ -1272,12 +1272,12 @@ func runClientScenario(sc scenario, res *result) {
 				key = "#v1"
 			}
 			if outClosed || !waitGot(key) {
-				continue
+				break
 			}
 			if version == 1 {
 				put(enc(atp.WorkDoneMessage{StepID: "step", OutputID: "success", OutputData: map[string]any{"message": "hello " + op.Run}}))
 				fs.legit[op.Run] = true
-				continue
+				break // (not continue: the settle below keeps v1 calls strictly serial)
 			}
 			if op.Kind == "err" {
 				w.s.Emit(g, "f.reply", map[string]any{"run": op.Run, "kind": "err"})
@@ -1291,7 +1291,7 @@ func runClientScenario(sc scenario, res *result) {
 			}
 		case "unsol":
 			if outClosed {
-				continue
+				break
 			}
 			var m any
 			run := ""
@@ -1317,13 +1317,13 @@ func runClientScenario(sc scenario, res *result) {
 			put(enc(m))
 		case "garbage":
 			if outClosed {
-				continue
+				break
 			}
 			w.s.Emit(g, "f.garbage", map[string]any{})
 			put([]byte{0xff, 0x1c, 0x1c, 0x00})
 		case "partial":
 			if outClosed || !waitGot(op.Run) {
-				continue
+				break
 			}
 			b := enc(atp.RuntimeMessage{MessageID: atp.MessageTypeWorkDone, RunID: op.Run,
 				MessageData: atp.WorkDoneMessage{StepID: "step", OutputID: "success", OutputData: map[string]any{"message": "hello " + op.Run}}})
@@ -1423,6 +1423,11 @@ func applyFault(p *sched.Pipe, f *faultSpec, base int64) {
 // applied if it falls inside - still decode to a well-formed work-done. Result: "wd:<run>" per such message.
 func independentDecode(frames [][]byte, f *faultSpec, version int64) []string {
 	out := []string{}
+	// a message is intact only if every key is one the protocol defines (a garbled key is not "intact")
+	strict, err := cbor.DecOptions{ExtraReturnErrors: cbor.ExtraDecErrorUnknownField}.DecMode()
+	if err != nil {
+		panic(err)
+	}
 	off := int64(0)
 	for _, fr := range frames {
 		b := append([]byte{}, fr...)
@@ -1442,18 +1447,18 @@ func independentDecode(frames [][]byte, f *faultSpec, version int64) []string {
 		}
 		if version == 1 {
 			var m atp.WorkDoneMessage
-			if cbor.Unmarshal(b, &m) == nil {
+			if strict.Unmarshal(b, &m) == nil {
 				out = append(out, "wd:#v1")
 			}
 			continue
 		}
 		var m atp.DecodedRuntimeMessage
-		if cbor.Unmarshal(b, &m) != nil {
+		if strict.Unmarshal(b, &m) != nil {
 			continue
 		}
 		if m.MessageID == atp.MessageTypeWorkDone {
 			var wd atp.WorkDoneMessage
-			if cbor.Unmarshal(m.RawMessageData, &wd) == nil {
+			if strict.Unmarshal(m.RawMessageData, &wd) == nil {
 				out = append(out, "wd:"+m.RunID)
 			}
 		}
